@@ -2,74 +2,76 @@
   C06 / refinement CoreVM → Lifetime, part 9: the refined CoreVM steps packaged as ONE relation, and the hierarchy part of the
   lifetime invariant along every sequence of such steps.
 
-  `RefinedStep ν φ vm vm'` : `vm'` is reached from `vm` by a normally terminating run of one of the CoreVM functions that are refined
-  (outermost `abortFlow` / `finishFlow`, the `EndScope` element and the `start_new_flow_instance` label of `slideStep`, the processing
-  of `StopFlow` / `FinishFlow(flow_instance_uid=…)` and of a `StartFlow` that does not create an instance), under the explicit
-  hypotheses of the respective refinement theorem.
-  `refinedStep_is_op`            : every such step IS one operation of the Lifetime machine on the abstraction (up to `cs`).
+  `RefinedOpStep ν φ vm vm'` : `vm'` is reached from `vm` by a normally terminating run of one of the CoreVM functions that are refined
+  to operations of the Lifetime machine (outermost `abortFlow` / `finishFlow`; the `EndScope`, `BeginScope`, label and effect-free
+  elements of `slideStep`; the processing of `StopFlow` / `FinishFlow` events in all their forms and of a `StartFlow` that does not
+  create an instance; `setFlowStatus`; `updateActionStatusByEvent`), under the explicit hypotheses of the respective refinement theorem.
+  `RefinedStep` : a `RefinedOpStep`, or `addNewFlowInstance` (= `createInst`, not an operation of the Lifetime machine, which has
+  creation + `_start_flow` as ONE operation).
+  `refinedStep_is_op`            : every such step IS a sequence of covered operations / a creation on the abstraction (up to `cs`).
   `corevm_hierarchy_invariant_partial` : `FlowInv ∧ LinkInv` of the abstraction and `WF` are preserved along every sequence of
   refined steps.  PARTIAL: the full statement (`corevm_lifetime_invariant`) would quantify over all steps of
-  `CoreVM.runToCompletion`; the steps that are not refined (instance creation + `_start_flow`, new-action / `Start` / conflict
-  resolution sites, `StopFlow(flow_id=…)`, head movement in general) are not in the relation.
+  `CoreVM.runToCompletion`; the steps that are not refined (`_start_flow`, new-action / `Start` / conflict resolution sites, head
+  movement in general) are not in the relation.
 -/
-import NemoVerif.Lemmas.LifetimeCoreVM8c
+import NemoVerif.Lemmas.LifetimeCoreVM8d
 namespace NemoVerif.Lifetime.Refine
 open NemoVerif NemoVerif.CoreVM NemoVerif.CoreIndex NemoVerif.Lifetime
 
 variable (ν φ : String → Nat)
 
-inductive RefinedStep : VM → VM → Prop
+inductive RefinedOpStep : VM → VM → Prop
   | abort (n : Nat) (f : FUid) (sc : List Score) (d : Bool) (vm vm' : VM) :
-      CoreVM.abortFlow n f sc d vm = .ok () vm' → RefinedStep vm vm'
+      CoreVM.abortFlow n f sc d vm = .ok () vm' → RefinedOpStep vm vm'
   | finish (n : Nat) (f : FUid) (sc : List Score) (d : Bool) (vm vm' : VM) :
-      LogInvisible n f sc → CoreVM.finishFlow n f sc d vm = .ok () vm' → RefinedStep vm vm'
+      LogInvisible n f sc → CoreVM.finishFlow n f sc d vm = .ok () vm' → RefinedOpStep vm vm'
   | endScope (fuel : Nat) (f : FUid) (h : HUid) (cfg : FlowCfg) (hd : Head) (name : String) (r : Bool × List Key) (vm vm' : VM) :
       cfgOfInst f vm = .ok cfg vm → getHead? (f, h) vm = .ok (some hd) vm →
       ¬ (hd.pos ≥ cfg.elements.size ∨ hd.status = .inactive) → cfg.elements[hd.pos]! = .endScope name →
       (∀ x, OMap.lookup f vm.r.fx = some x → (x.scopes.map (·.1)).Nodup) → NameRO f (hd.pos + 1) →
-      slideStep fuel f h vm = .ok r vm' → RefinedStep vm vm'
+      slideStep fuel f h vm = .ok r vm' → RefinedOpStep vm vm'
   | label (fuel : Nat) (f : FUid) (h : HUid) (cfg : FlowCfg) (hd : Head) (r : Bool × List Key) (vm vm' : VM) :
       cfgOfInst f vm = .ok cfg vm → getHead? (f, h) vm = .ok (some hd) vm →
       ¬ (hd.pos ≥ cfg.elements.size ∨ hd.status = .inactive) → cfg.elements[hd.pos]! = .label "start_new_flow_instance" →
       NameRO f (hd.pos + 1) →
-      slideStep fuel f h vm = .ok r vm' → RefinedStep vm vm'
+      slideStep fuel f h vm = .ok r vm' → RefinedOpStep vm vm'
   | beginScope (fuel : Nat) (f : FUid) (h : HUid) (cfg : FlowCfg) (hd : Head) (name : String) (r : Bool × List Key) (vm vm' : VM) :
       cfgOfInst f vm = .ok cfg vm → getHead? (f, h) vm = .ok (some hd) vm →
       ¬ (hd.pos ≥ cfg.elements.size ∨ hd.status = .inactive) → cfg.elements[hd.pos]! = .beginScope name →
       NameRO f (hd.pos + 1) →
-      slideStep fuel f h vm = .ok r vm' → RefinedStep vm vm'
+      slideStep fuel f h vm = .ok r vm' → RefinedOpStep vm vm'
   | other (fuel : Nat) (f : FUid) (h : HUid) (cfg : FlowCfg) (hd : Head) (r : Bool × List Key) (vm vm' : VM) :
       cfgOfInst f vm = .ok cfg vm → getHead? (f, h) vm = .ok (some hd) vm →
       ¬ (hd.pos ≥ cfg.elements.size ∨ hd.status = .inactive) → cfg.elements[hd.pos]! = .other →
       NameRO f (hd.pos + 1) →
-      slideStep fuel f h vm = .ok r vm' → RefinedStep vm vm'
+      slideStep fuel f h vm = .ok r vm' → RefinedOpStep vm vm'
   | status (f : FUid) (st : FlowStatus) (i : Inst) (vm vm' : VM) :
       findInst vm.ixs.ix f = some i → statusStepOk (absStatus i.status) (absStatus st) = true →
-      CoreVM.setFlowStatus f st vm = .ok () vm' → RefinedStep vm vm'
+      CoreVM.setFlowStatus f st vm = .ok () vm' → RefinedOpStep vm vm'
   | event (e : Match.Ev) (vm vm' : VM) :
       eventOk (absVM ν φ vm) (absEv ν e) = true →
-      CoreVM.updateActionStatusByEvent e vm = .ok () vm' → RefinedStep vm vm'
+      CoreVM.updateActionStatusByEvent e vm = .ok () vm' → RefinedOpStep vm vm'
   | stopEvent (fuel : Nat) (event : Event) (uid : String) (r : Event × List String) (vm vm' : VM) :
       event.ev.name = "StopFlow" → lookupArg "flow_instance_uid" event.ev.args = some (.str uid) →
-      processInternalEvent fuel event vm = .ok r vm' → RefinedStep vm vm'
+      processInternalEvent fuel event vm = .ok r vm' → RefinedOpStep vm vm'
   | stopIdEvent (fuel : Nat) (event : Event) (fid : String) (r : Event × List String) (vm vm' : VM) :
       event.ev.name = "StopFlow" → lookupArg "flow_instance_uid" event.ev.args = none →
       lookupArg "flow_id" event.ev.args = some (.str fid) →
-      processInternalEvent fuel event vm = .ok r vm' → RefinedStep vm vm'
+      processInternalEvent fuel event vm = .ok r vm' → RefinedOpStep vm vm'
   | finishIdEvent (fuel : Nat) (event : Event) (fid : String) (r : Event × List String) (vm vm' : VM) :
       event.ev.name = "FinishFlow" → lookupArg "flow_instance_uid" event.ev.args = none →
       lookupArg "flow_id" event.ev.args = some (.str fid) → (∀ u, LogInvisible fuel u event.scores) →
-      processInternalEvent fuel event vm = .ok r vm' → RefinedStep vm vm'
+      processInternalEvent fuel event vm = .ok r vm' → RefinedOpStep vm vm'
   | finishEvent (fuel : Nat) (event : Event) (uid : String) (r : Event × List String) (vm vm' : VM) :
       event.ev.name = "FinishFlow" → lookupArg "flow_instance_uid" event.ev.args = some (.str uid) →
       LogInvisible fuel uid event.scores →
-      processInternalEvent fuel event vm = .ok r vm' → RefinedStep vm vm'
+      processInternalEvent fuel event vm = .ok r vm' → RefinedOpStep vm vm'
   | startEvent (fuel : Nat) (event : Event) (flowId src : String) (r : Event × List String) (pm : List Nat) (vm vm' : VM) :
       event.ev.name = "StartFlow" → lookupArg "flow_id" event.ev.args = some (.str flowId) →
       lookupArg "source_flow_instance_uid" event.ev.args = some (.str src) →
       ((vm.r.prog.find flowId).isSome && decide (flowId ≠ "main")) = true →
       RefAgree ν φ vm flowId event.ev.args (fun u => pm.contains u) →
-      processInternalEvent fuel event vm = .ok r vm' → r.2 ≠ [] → RefinedStep vm vm'
+      processInternalEvent fuel event vm = .ok r vm' → r.2 ≠ [] → RefinedOpStep vm vm'
 
 /-- the operations of the Lifetime machine that refined CoreVM steps map to -/
 def Covered : IOp → Prop
@@ -79,8 +81,8 @@ def Covered : IOp → Prop
 theorem okOr_ok (s t : State) (r : Except Err State) (h : r = .ok t) : okOr s r = t := by rw [h]; rfl
 
 /-- every refined CoreVM step IS one operation of the Lifetime machine on the abstraction -/
-theorem refinedStep_is_op (hν : Function.Injective ν) (hφ : Function.Injective φ) (vm vm' : VM) (hw : WF vm)
-    (h : RefinedStep ν φ vm vm') : WF vm' ∧ ∃ ops : List IOp, (∀ op ∈ ops, Covered op) ∧ absVM ν φ vm' = cs (ops.foldl applyOp (absVM ν φ vm)) := by
+theorem refinedOpStep_is_op (hν : Function.Injective ν) (hφ : Function.Injective φ) (vm vm' : VM) (hw : WF vm)
+    (h : RefinedOpStep ν φ vm vm') : WF vm' ∧ ∃ ops : List IOp, (∀ op ∈ ops, Covered op) ∧ absVM ν φ vm' = cs (ops.foldl applyOp (absVM ν φ vm)) := by
   cases h with
   | abort n f sc d _ _ hr =>
     obtain ⟨t, ht, ha, w'⟩ := corevm_abort_is_op ν φ hν hφ n vm f sc d vm' hw hr
@@ -259,6 +261,29 @@ theorem flowInv_step_covered (s : State) (op : IOp) (hi : FlowInv s) (hc : Cover
       rw [happ]; exact hi
   | _ => exact absurd hc (by simp [Covered])
 
+/-- a refined CoreVM step: one of the operation steps above, or the creation of an instance (`add_new_flow_instance`) at a uid that
+    no instance lists as a child -/
+inductive RefinedStep : VM → VM → Prop
+  | op {vm vm' : VM} : RefinedOpStep ν φ vm vm' → RefinedStep vm vm'
+  | create (uid : FUid) (cfg : FlowCfg) (hp : String) (args : List (String × Val)) (vm vm' : VM) :
+      lookupArg "context" args = none → ArgsFrame cfg args → cfg.id ≠ "main" → unlisted (absVM ν φ vm) (ν uid) = true →
+      addNewFlowInstance uid cfg hp args vm = .ok () vm' → RefinedStep vm vm'
+
+/-- every refined CoreVM step IS a sequence of covered operations of the Lifetime machine on the abstraction, or the creation of an
+    isolated instance -/
+theorem refinedStep_is_op (hν : Function.Injective ν) (hφ : Function.Injective φ) (vm vm' : VM) (hw : WF vm)
+    (h : RefinedStep ν φ vm vm') : WF vm' ∧
+      ((∃ ops : List IOp, (∀ op ∈ ops, Covered op) ∧ absVM ν φ vm' = cs (ops.foldl applyOp (absVM ν φ vm))) ∨
+       (∃ c fid, (absVM ν φ vm).flows c = none ∧ unlisted (absVM ν φ vm) c = true ∧
+          absVM ν φ vm' = createInst (absVM ν φ vm) c fid)) := by
+  cases h with
+  | op h0 =>
+    obtain ⟨w, ops, hc, ha⟩ := refinedOpStep_is_op ν φ hν hφ vm vm' hw h0
+    exact ⟨w, Or.inl ⟨ops, hc, ha⟩⟩
+  | create uid cfg hp args _ _ hctx hargs hmain hul hr =>
+    obtain ⟨h1, h2, h3⟩ := corevm_addNewFlowInstance_is_create ν φ hν uid cfg hp args vm vm' hw hctx hargs hmain hr
+    exact ⟨h3, Or.inr ⟨ν uid, φ cfg.id, h1, hul, h2⟩⟩
+
 /-- reachability by refined CoreVM steps -/
 inductive RefinedSteps : VM → VM → Prop
   | refl (vm : VM) : RefinedSteps vm vm
@@ -275,19 +300,22 @@ theorem corevm_hierarchy_invariant_partial (hν : Function.Injective ν) (hφ : 
   | refl => exact ⟨hw, hf, hl⟩
   | tail _ hstep ih =>
     obtain ⟨w1, f1, l1⟩ := ih
-    obtain ⟨w2, ops, hcov, habs⟩ := refinedStep_is_op ν φ hν hφ _ _ w1 hstep
-    have key : ∀ (ops : List IOp) (s : State), (∀ op ∈ ops, Covered op) → FlowInv s → LinkInv s →
-        FlowInv (ops.foldl applyOp s) ∧ LinkInv (ops.foldl applyOp s) := by
-      intro ops
-      induction ops with
-      | nil => intro s _ a b; exact ⟨a, b⟩
-      | cons op ops ih2 =>
-        intro s hc a b
-        exact ih2 _ (fun o ho => hc o (List.mem_cons_of_mem _ ho))
-          (flowInv_step_covered s op a (hc op (List.mem_cons_self ..))) (LinkInv.step s op b)
-    obtain ⟨f2, l2⟩ := key ops _ hcov f1 l1
-    rw [habs]
-    exact ⟨w2, FlowInv.cs f2, LinkInv.cs l2⟩
+    obtain ⟨w2, hcase⟩ := refinedStep_is_op ν φ hν hφ _ _ w1 hstep
+    rcases hcase with ⟨ops, hcov, habs⟩ | ⟨c, fid, hc0, hul, habs⟩
+    · have key : ∀ (ops : List IOp) (s : State), (∀ op ∈ ops, Covered op) → FlowInv s → LinkInv s →
+          FlowInv (ops.foldl applyOp s) ∧ LinkInv (ops.foldl applyOp s) := by
+        intro ops
+        induction ops with
+        | nil => intro s _ a b; exact ⟨a, b⟩
+        | cons op ops ih2 =>
+          intro s hc a b
+          exact ih2 _ (fun o ho => hc o (List.mem_cons_of_mem _ ho))
+            (flowInv_step_covered s op a (hc op (List.mem_cons_self ..))) (LinkInv.step s op b)
+      obtain ⟨f2, l2⟩ := key ops _ hcov f1 l1
+      rw [habs]
+      exact ⟨w2, FlowInv.cs f2, LinkInv.cs l2⟩
+    · rw [habs]
+      exact ⟨w2, createInst_flowInv _ c fid f1 hc0 hul, createInst_linkInv _ c fid l1 hc0⟩
 
 /-! ### non-vacuity: `vmEx` satisfies the hypotheses, and a refined step leaves it -/
 
@@ -318,7 +346,7 @@ theorem vmEx_linkInv : LinkInv (absVM ν φ vmEx) := by
 
 theorem vmEx_refined : ∃ vm', RefinedSteps ν φ vmEx vm' ∧ RefinedStep ν φ vmEx vm' := by
   cases h : CoreVM.abortFlow 3 "a" [] false vmEx with
-  | ok u vm' => exact ⟨vm', .tail (.refl _) (.abort 3 "a" [] false _ _ h), .abort 3 "a" [] false _ _ h⟩
+  | ok u vm' => exact ⟨vm', .tail (.refl _) (.op (.abort 3 "a" [] false _ _ h)), .op (.abort 3 "a" [] false _ _ h)⟩
   | error e s =>
     have : (match CoreVM.abortFlow 3 "a" [] false vmEx with | .ok _ _ => true | .error _ _ => false) = true := by rfl
     rw [h] at this; cases this
